@@ -44,13 +44,13 @@ REQUIRED = {'quick': {'ops_accepted': 1300, 'ops_rejected': 300, 'rechecks_ok': 
                       'structure_walks': 1400, 'citations_resolved': 20000, 'reimports_compared': 900,
                       'complete_proofs_rechecked_no_gaps': 100, 'isolation_checked': 1600, 'isolation_checked_after_raise': 300,
                       'lib_recorded_steps_accepted': 900, 'perturbed_ops_accepted': 120, 'gen_ops_accepted': 250,
-                      'search_calls': 300, 'ide_history_states_compared': 100},
+                      'search_calls': 300, 'ide_history_states_compared': 100, 'scenarios_completed': 5},
             'thorough': {'ops_accepted': 20000, 'ops_rejected': 3000, 'rechecks_ok': 18000, 'gap_reports_compared': 18000,
                          'structure_walks': 20000, 'citations_resolved': 400000, 'reimports_compared': 15000,
                          'complete_proofs_rechecked_no_gaps': 1500, 'isolation_checked': 24000,
                          'isolation_checked_after_raise': 3000, 'lib_recorded_steps_accepted': 18000,
                          'perturbed_ops_accepted': 1500, 'gen_ops_accepted': 3000, 'search_calls': 2000,
-                         'ide_history_states_compared': 500}}
+                         'ide_history_states_compared': 500, 'scenarios_completed': 5}}
 SHARD_TIMEOUT = {'quick': 900, 'thorough': 7200}
 
 GEN_VARS = {'A': 'bool', 'B': 'bool', 'C': 'bool', 'P': "'a => bool", 'Q': "'a => bool", 'R': "'a => 'a => bool",
@@ -1432,6 +1432,65 @@ OTHER_GOALS = [('nat', {'n': 'nat', 'm': 'nat'}, 'n + 0 = n'), ('nat', {'n': 'na
                ('function', {'f': "'a => 'b", 'g': "'b => 'c"}, 'injective f --> injective g --> injective (g O f)')]
 
 
+def M_(name_, goal_id_, facts=None, **kw):
+    st = {"method_name": name_, "goal_id": goal_id_}
+    if facts:
+        st['fact_ids'] = facts
+    st.update(kw)
+    return {'op': 'method', 'step': st}
+
+
+ABC = {'A': 'bool', 'B': 'bool', 'C': 'bool'}
+PQ = {'P': "'a => bool", 'Q': "'a => bool", 'C': 'bool'}
+# directed histories: interplay of renumbering, citation rewriting and splicing that random perturbation reaches rarely
+SCENARIOS = [
+    # a gap is used as a fact from inside a later block, then closed by a forward step (replace_id must descend)
+    ('logic', ABC, 'A & B --> A & (C --> A)',
+     [M_('apply_backward_step', '1', theorem='conjI'), M_('introduction', '2'),
+      M_('apply_forward_step', '1', ['0'], theorem='conjD1')]),
+    # the same two levels down
+    ('logic', PQ, '!x. P x & Q x --> P x & (C --> P x)',
+     [M_('introduction', '0', names='x'), M_('apply_backward_step', '0.2', theorem='conjI'), M_('introduction', '0.3'),
+      M_('apply_forward_step', '0.2', ['0.1'], theorem='conjD1')]),
+    # insertions / removals in the middle of nested blocks whose later lines cite across the insertion point
+    ('logic', ABC, 'A & B --> (C --> A) & (C --> B)',
+     [M_('apply_backward_step', '1', theorem='conjI'), M_('introduction', '1'), M_('introduction', '2'),
+      {'op': 'add_line_before', 'id': '1.1', 'n': 3}, {'op': 'remove_line', 'id': '1.2'},
+      M_('apply_forward_step', '1.3', ['0'], theorem='conjD1'), {'op': 'remove_line', 'id': '1.1'},
+      {'op': 'add_line_before', 'id': '2.0', 'n': 2}, M_('apply_forward_step', '2.3', ['0'], theorem='conjD2'),
+      {'op': 'remove_line', 'id': '2.0'}, {'op': 'remove_line', 'id': '2.0'}, {'op': 'remove_line', 'id': '1.1'}]),
+    # cut whose statement is proved later by a forward fact; the cut line is cited from a nested block
+    ('logic', ABC, 'A & B --> (B & A) | C',
+     [M_('cut', '1', goal='A'), M_('apply_backward_step', '2', theorem='disjI1'), M_('apply_backward_step', '2', theorem='conjI'),
+      M_('apply_forward_step', '2', ['0'], theorem='conjD2'), M_('apply_forward_step', '1', ['0'], theorem='conjD1')]),
+    # exists_elim followed by work inside and forall_elim, three levels of citations
+    ('logic', PQ, '(?x. P x) --> (!x. P x --> Q x) --> (?x. Q x)',
+     [M_('exists_elim', '2', ['0'], names='u'), M_('forall_elim', '4', ['1'], s='u'), M_('apply_fact', '5', ['4', '3']),
+      M_('inst_exists_goal', '6', s='u')]),
+]
+
+
+def run_scenarios(ctx):
+    from logic import basic
+    cur_thy = None
+    for k, (thy, vars_, prop, ops) in enumerate(SCENARIOS):
+        if thy != cur_thy:
+            basic.load_theory(thy)
+            cur_thy = thy
+            THM_POOL_CACHE.clear()
+        origin = {'kind': 'gen', 'theory': thy, 'vars': vars_, 'prop': prop, 'scenario': k}
+        sess = new_session(ctx, origin, vars_, prop, 'gen')
+        ctx.count('scenarios')
+        for op in ops:
+            r = apply_op(sess, op, 'scenario_ops_accepted')
+            if r != 'ok':
+                ctx.count('scenario_step_rejected')
+                ctx.note('scenario %d: step %s was not accepted (%r)' % (k, op_label(op), r))
+                break
+        else:
+            ctx.count('scenarios_completed')
+
+
 def run_gen(ctx, spec):
     from logic import basic, context
     libreplay.prepare()
@@ -1439,6 +1498,7 @@ def run_gen(ctx, spec):
     rng = ctx.rng
     goals = []
     if spec['i'] == 0:
+        run_scenarios(ctx)
         goals.extend(OTHER_GOALS)
     for k in range(spec['goals']):
         goals.append(('logic', GEN_VARS, gen_goal(rng)))
